@@ -266,6 +266,25 @@ def run(tier):
                       "radix: %s" % "; ".join(wrong[:4]), site=F.fns[gk].span, detail={"cases": ncase, "wrong": len(wrong)})
         except (_fold.Unsupported, _fold.Diverged) as ex:
             rep.extra["guard_language_not_decided"] = str(ex)
+    # ... and what the float guard accepts: is_core_schema_number folded over every string of up to 4 characters over {0,1,.,e,E,+,-,x}
+    # and some long spellings must be the core schema's decimal number [-+]?(\.[0-9]+|[0-9]+(\.[0-9]*)?)([eE][-+]?[0-9]+)?
+    import re as _re
+    fk = "saphyr::loader::is_core_schema_number"
+    if fk in F.fns:
+        rx = _re.compile(r"[-+]?(\.[0-9]+|[0-9]+(\.[0-9]*)?)([eE][-+]?[0-9]+)?\Z")
+        wrong, ncase = [], 0
+        try:
+            cases = ["".join(t) for n_ in range(0, 5) for t in itertools.product("01.eE+-x", repeat=n_)]
+            cases += ["1" * 30, "0." + "1" * 40, "-" + "9" * 25 + ".5", "1e" + "0" * 12 + "5", "." + "3" * 30, "1" * 25 + "e+10", "1.5e", "1_0", "1e1.5", "0x10"]
+            for sx in cases:
+                ncase += 1
+                got = bool(_fold.Folder(F).call(fk, [("ref", ("str", sx))]))
+                if got != bool(rx.match(sx)):
+                    wrong.append("%r: guard says %s" % (sx if len(sx) < 14 else sx[:6] + "...x%d" % len(sx), got))
+            rep.check(not wrong, "guard-language", "is_core_schema_number", "the lexical guard of floats does not accept exactly the decimal numbers of the core schema: %s"
+                      % "; ".join(wrong[:4]), site=F.fns[fk].span, detail={"cases": ncase, "wrong": len(wrong)})
+        except (_fold.Unsupported, _fold.Diverged) as ex:
+            rep.extra["float_guard_language_not_decided"] = str(ex)
     rep.floor("None results built by the float resolver", n_none, 1)
     # (e) no parsed number is converted with a lossy `as`
     from engine import callgraph
